@@ -262,3 +262,36 @@ Proof.
   intros HP Ht. cbn zeta. intros Hnu Halloc. apply (termination_reduced_tree P p N HP Ht Hnu); [|exact Halloc].
   intros n Hm Hc. destruct (every_pass_terminates_tree P p n HP Ht Hnu Hm Hc) as (m & Hm' & _). exists m. exact Hm'.
 Qed.
+
+(* a run that is final at fuel K: a bound on the ids checked up to K holds for every fuel *)
+Lemma alloc_bounded_all P c K N :
+  forallb (fun k => Z.leb (top_next (c_st (run P k c))) (Z.of_nat N)) (seq 0 (S K)) = true ->
+  is_final (c_mode (run P K c)) = true -> forall n, (top_next (c_st (run P n c)) <= Z.of_nat N)%Z.
+Proof.
+  intros Hb Hf n. rewrite forallb_forall in Hb.
+  destruct (Nat.le_gt_cases n K) as [L|L].
+  - apply Z.leb_le. apply Hb. apply in_seq. lia.
+  - replace n with (K + (n - K))%nat by lia. rewrite run_add, (run_final P (n - K) _ Hf).
+    apply Z.leb_le. apply Hb. apply in_seq. lia.
+Qed.
+
+(* non-vacuity for a program WITH batch items: c01_demo (two batch kinds, a nested task; it needs flushes, see
+   C03_termination_demos) never unwinds and creates at most 10 futures, for every fuel; the theorem gives its
+   termination with the sequential outcome *)
+Example c01_demo_terminates :
+  let P := mkP [] 1000 false [] in
+  let h := fst (create [] (FTask c01_demo) (st0 P)) in
+  let s1 := snd (create [] (FTask c01_demo) (st0 P)) in
+  (forall n, no_unwind P n (start h s1)) /\ (forall n, (top_next (c_st (run P n (start h s1))) <= Z.of_nat 10)%Z) /\
+  exists n, c_mode (run P n (start h s1)) = MDone (eval c01_demo).
+Proof.
+  cbn zeta. set (P := mkP [] 1000 false []).
+  set (c := start (fst (create [] (FTask c01_demo) (st0 P))) (snd (create [] (FTask c01_demo) (st0 P)))).
+  assert (Hf : is_final (c_mode (run P 41 c)) = true) by (vm_compute; reflexivity).
+  assert (Hnu : forall n, no_unwind P n c) by (apply (no_unwind_all P c 41); [vm_compute; reflexivity|exact Hf]).
+  assert (Hal : forall n, (top_next (c_st (run P n c)) <= Z.of_nat 10)%Z)
+    by (apply (alloc_bounded_all P c 41 10); [vm_compute; reflexivity|exact Hf]).
+  split; [exact Hnu|]. split; [exact Hal|].
+  assert (HP : pointwise P) by (intros kind; reflexivity).
+  exact (terminates_if_allocation_bounded_tree P c01_demo 10 HP c01_demo_tree Hnu Hal).
+Qed.
